@@ -260,6 +260,17 @@ Lemma cast_u16 x : cast u16 x = x mod 2 ^ 16. Proof. reflexivity. Qed.
 Lemma cast_u32 x : cast u32 x = x mod 2 ^ 32. Proof. reflexivity. Qed.
 Lemma cast_u64 x : cast u64 x = x mod 2 ^ 64. Proof. reflexivity. Qed.
 
+Lemma in_range_i32 x : -2147483648 <= x <= 2147483647 -> in_range i32 x.
+Proof. intros H. unfold in_range. change (imin i32) with (-2147483648). change (imax i32) with 2147483647. exact H. Qed.
+Lemma in_range_i64 x : -9223372036854775808 <= x <= 9223372036854775807 -> in_range i64 x.
+Proof. intros H. unfold in_range. change (imin i64) with (-9223372036854775808). change (imax i64) with 9223372036854775807. exact H. Qed.
+Lemma sadd_i32 a b : -2147483648 <= a + b <= 2147483647 -> sadd i32 a b = Some (a + b).
+Proof. intros. apply checked_some, in_range_i32. assumption. Qed.
+Lemma ssub_i32 a b : -2147483648 <= a - b <= 2147483647 -> ssub i32 a b = Some (a - b).
+Proof. intros. apply checked_some, in_range_i32. assumption. Qed.
+Lemma ssub_i64 a b : -9223372036854775808 <= a - b <= 9223372036854775807 -> ssub i64 a b = Some (a - b).
+Proof. intros. apply checked_some, in_range_i64. assumption. Qed.
+
 (** One step: the head of the goal is a bind of a shift with a legal literal count, or of a value. *)
 Ltac monad_step :=
   lazymatch goal with
